@@ -111,6 +111,13 @@ def base_schema(rnd, mode):
     t(["top", "ac", "ay"], "leaf", aug_body[2][3][0], ["b", "a", "a"])
     t(["nope"], "missing", None)
     t(["top", "x", "deep"], "missing", None)
+    # a first prefix the deviating module does not know (typo; the module NAME where the import binds another prefix):
+    # no target; a later step with such a prefix is looked up by name alone
+    t(["top", "x"], "missing", None, ["zz", "b"])
+    t(["top"], "missing", None, ["base"])
+    t(["c1", "gx"], "missing", None, ["bb", "bb"])
+    t(["top", "x"], "leaf", tb[0], ["b", "zz"])
+    t(["top", "l"], "list", tb[1], ["b", "nosuch"])
     return [b, a], T
 
 
@@ -324,6 +331,55 @@ def check_revision_cases(res, rcases, report=3):
                 res.violation(what, dict(kind="c08-rev", what=what,
                                          case=dict(base=c["base"], revs=c["revs"], newest=c["newest"], order=c["order"], opts=c["opts"],
                                                    info=c["info"])))
+    return stats, nviol
+
+
+# ------------------------------------------------------------------ the option is read by every Process
+def check_flip_cases(res, cases, seed, n_max, report=3):
+    """one Modules value, Process under one setting of IgnoreDeviateNotSupported, option flipped, Process again: each run
+    must give what a fresh module set gives under the options then in force"""
+    rnd = random.Random(seed * 31 + 5)
+    cand = [c for c in cases if c.get("schema") is None and not c["info"].get("nomodel") and
+            any(d["kind"] == "not-supported" for m in c["dev"] for _, dvs in m["deviations"] for d in dvs)]
+    rnd.shuffle(cand)
+    cand = cand[:n_max]
+    stats = dict(flip_runs=0, flip_first_ok=0)
+    lines, meta, fresh, fidx = [], [], [], {}
+
+    def fresh_line(c, o):
+        l = go_line(full_schema(c), o, c["info"].get("layout"))
+        if l not in fidx:
+            fidx[l] = len(fresh)
+            fresh.append(l)
+        return l
+    for c in cand:
+        for seq in (("n", "-"), ("-", "n"), ("n", "-", "n")):
+            toks = go_line(full_schema(c), "-", c["info"].get("layout")).split(" ")
+            lines.append(" ".join(["c08flip", ",".join(seq)] + toks[3:]))
+            meta.append((c, seq, [fresh_line(c, o) for o in seq]))
+    got = lib.run_go(lines)
+    fr = lib.run_go(fresh)
+    nviol = 0
+    for (c, seq, fl), g in zip(meta, got):
+        stats["flip_runs"] += 1
+        if not g.startswith("{"):
+            what = "flipped option: harness: " + g[:200]
+        else:
+            what = None
+            j = json.loads(g)
+            for k, o in enumerate(seq):
+                st, canon, _ = sg.canon_go(json.dumps(dict(loads=j["loads"], runs=[j["runs"][k]])))
+                est, ecanon, _ = sg.canon_go(fr[fidx[fl[k]]])
+                if k == 0 and st == "ok":
+                    stats["flip_first_ok"] += 1
+                if (st, canon) != (est, ecanon):
+                    what = ("Process number %d on one module set, options %r after %r: %s %s; a fresh set under %r: %s %s" %
+                            (k + 1, o, ",".join(seq[:k]), st, (canon or "")[:200], o, est, (ecanon or "")[:200]))
+                    break
+        if what:
+            nviol += 1
+            if nviol <= report:
+                res.violation("flipped option: " + what, dict(kind="c08-flip", what=what, seq=list(seq), case=strip(c)))
     return stats, nviol
 
 
@@ -952,6 +1008,9 @@ def frame_check(c, bdump, ddump, stats):
 def run(res, tier, seed, proof):
     cases, hist = gen_cases(tier, seed)
     stats, nviol = check_cases(res, cases)
+    fstats, fviol = check_flip_cases(res, cases, seed, 120 if tier == "quick" else 1500)
+    stats.update(fstats)
+    nviol += fviol
     rcases = gen_revision_cases(tier, seed)
     rstats, rviol = check_revision_cases(res, rcases)
     stats.update(rstats)
@@ -977,7 +1036,9 @@ def run(res, tier, seed, proof):
              "out raggedly (random and decreasing indentation, several deviates per line, deviate on the deviation line); empty-string "
              "defaults and units in sources and deviates; a text-level family of leaves typed by typedef chains with and without "
              "defaults (implementation + reference only); a family with the deviating module in 2-3 revisions, all loaded in "
-             "every order, compared with base + most recent revision alone.  Each case: model-vs-implementation, frame against the run without the deviating modules, "
+             "every order, compared with base + most recent revision alone; deviation paths whose first prefix the deviating module does not know; "
+             "one module set processed repeatedly with IgnoreDeviateNotSupported flipped in between (harness/go c08flip), each run "
+             "compared with a fresh set under the options in force.  Each case: model-vs-implementation, frame against the run without the deviating modules, "
              "extracted reference applied to the undeviated dump",
         exhaustive=False, mismatches=nviol,
         distribution=dict(hist, groups=groups, **stats),
@@ -997,6 +1058,13 @@ def run(res, tier, seed, proof):
 
 def replay(rep, res):
     c0 = rep["case"]
+    if rep.get("kind") == "c08-flip":
+        print("sequence of options:", rep["seq"], "\n", rep["what"][:1500])
+        rep = dict(rep, kind="c08")
+        c0 = rep["case"]
+        flip_seq = rep["seq"]
+    else:
+        flip_seq = None
     if rep.get("kind") == "c08-rev":
         kinds = ("leaf", "leaflist", "container", "list", "choice", "case", "any", "uses", "grouping", "rpc", "notification")
 
@@ -1041,6 +1109,9 @@ def replay(rep, res):
         lay = c["info"].get("layout")
         print(m["text"] if "text" in m else render_module_layout(m, random.Random(lay * 1009 + i) if lay is not None else None))
     stats, nviol = check_cases(res, [c], report=10)
+    if flip_seq is not None:
+        fs, fv = check_flip_cases(res, [c], 0, 1, report=10)
+        nviol += fv
     print("implementation:", c.get("_st"), " violations:", nviol)
     for what, r, _ in res.violations:
         print("  ", what[:500])
